@@ -79,8 +79,15 @@ def c16(tier, seed):
     ck.assumptions += ["reference recogniser (src/ref/refcodec.cpp: utf8_class, topic_name_ok, topic_filter_ok, shared_filter_ok) is the MQTT 5 rule",
                        "control characters and non-characters count as not well-formed, as the property statement says",
                        "don't-care: payloads flagged as UTF-8, $share filters given to unsubscribe"]
+    _sim_part(ck, "C16", tier, seed,
+              "public API on a real client that cannot connect: 12 requests per scenario composed from well-formed and ill-formed fragments "
+              "(publish topic, Content Type / Response Topic / User Property strings, payload declared UTF-8, subscribe and $share filters, "
+              "Subscription Identifier bounds, unsubscribe filters); the reference recogniser decides; refused requests must complete at the same "
+              "virtual instant, not inside the call, with the documented code and nothing on the wire; well-formed ones must stay pending. " + SHAPE)
     ck.require("valid_probe.class_UNFs")
     ck.require("valid_probe.class_unfs")
+    ck.require("sim.api_invalid_requests", 100)
+    ck.require("sim.api_valid_requests", 100)
     return ck.finish()
 
 
@@ -93,9 +100,16 @@ def c08(tier, seed):
                 "exhaustion + release in 5 orders + re-exhaustion, long random walks; oracle after every step: never 0 unless "
                 "65535 in use, never an id in use, every freed id allocatable again. distinct_nontrivial = distinct abstract "
                 "allocator states reached (ids in use + occupancy of the first/last 64 ids)" % ((11, 5) if tier == "thorough" else (9, 3)))
-    ck.assumptions += ["unit level only in this round: uniqueness among live client exchanges is decided by the simulator part of this check when present"]
+    _sim_part(ck, "C08", tier, seed,
+              "real client: seeded mixes with 5-40 publishes, subscribes, unsubscribes, inbound traffic and faults; monitor over the wire history: an "
+              "identifier offered in PUBLISH(QoS>0)/SUBSCRIBE/UNSUBSCRIBE is never 0 and never held by another operation whose handler has not run "
+              "yet; plus one exhaustion scenario: 65535 QoS 1 publishes against a silent broker all get identifiers, the next publish and subscribe "
+              "get pid_overrun, and after one exchange completes a new QoS 2 publish completes. " + SHAPE)
     ck.require("pid_probe.overruns")
     ck.require("pid_probe.exhaustion_runs")
+    ck.require("sim.exhaustion_scenarios")
+    if ck.counters.get("sim.max_ids_in_use", 0) < 65535:
+        ck.harness_errors.append("inconclusive: the exhaustion scenario never had 65535 identifiers in use")
     return ck.finish()
 
 
@@ -109,8 +123,15 @@ def c11(tier, seed):
                 "operation_aborted only for cancelled waiters, exactly one completion each (also after destruction), none inside "
                 "an initiating call, is_locked() equals the model. distinct_nontrivial = distinct model-state trajectories"
                 % (8 if tier == "thorough" else 6))
+    _sim_part(ck, "C11", tier, seed,
+              "real client with keep-alive 2 s, slow acks (sentry timeouts), write latency, up to 3 connection faults and 3 bad reconnect attempts so "
+              "that read failure, write failure, keep-alive timeout, sentry DISCONNECT and async_shutdown coincide; plus cancel() and "
+              "cancel->run->cancel at enumerated idle points; monitor (online in the simulated transport): when a connect or handshake i/o is "
+              "initiated no other connection is still busy with its handshake, no name resolution is in flight, resolutions never overlap, and "
+              "after cancel() no connect/resolve starts before the next async_run. " + SHAPE)
     ck.require("mutex_probe.grants")
     ck.require("mutex_probe.aborts")
+    ck.require("sim.scenarios_with_reconnects", 100)
     return ck.finish()
 
 
@@ -159,8 +180,17 @@ def c19(tier, seed):
     ck.assumptions += ["don't-care (no verdict): duplicate single-valued properties, non-minimal variable byte integers, ill-formed UTF-8 in "
                        "received strings, reserved flag bits, packet id 0, trailing bytes after the property list, absent Property Length",
                        "unit level only in this round: framing, handshake and whole-client behaviour under hostile bytes are decided by the simulator part when present"]
+    _sim_part(ck, "C19", tier, seed,
+              "real client vs hostile broker bytes in four phases (instead of CONNACK, right after CONNACK, with requests awaiting replies, mid "
+              "QoS 2): structured length-field mutations and byte mutations of every server packet type, aimed at outstanding packet ids; each "
+              "stream is replayed under three chunkings (one read, single bytes, random cuts) at one virtual instant; oracles: no sanitizer report, "
+              "no exception out of poll(), no assertion, no handler livelock, no successful completion without a genuine well-formed ack (C01/C14 "
+              "monitors), identical client responses up to its DISCONNECT whatever the chunking, and a publish issued afterwards completes within 90 "
+              "virtual seconds. " + SHAPE)
     ck.require("codec_probe.length_field_mutations")
     ck.require("codec_probe.lib_rejected")
+    ck.require("sim.hostile_runs", 100)
+    ck.require("sim.chunking_comparisons", 50)
     return ck.finish()
 
 
@@ -286,6 +316,65 @@ def c07(tier, seed):
     return ck.finish()
 
 
+def c09(tier, seed):
+    ck = Check("C09", tier, seed, "exploration")
+    _sim_part(ck, "C09", tier, seed,
+              "async_disconnect (reason 0 without properties, reason 4 with a Reason String) injected at every idle point (up to a cap) of seeded base "
+              "scenarios: never connected, resolving, TCP connect hung, handshake, back-off, connected with queued / throttled / in-flight traffic, "
+              "mid-write, connection lost while the DISCONNECT is written, hung async_shutdown; monitor: on the connection current at the call, after "
+              "the write already in progress, the next write is the DISCONNECT alone with the requested code and properties and nothing follows; a "
+              "connection established inside the window carries the DISCONNECT first; completion - initiation <= 5.000 s of virtual time; other "
+              "operations end with operation_aborted; afterwards no write / connect / resolve until async_run. " + SHAPE)
+    ck.require("sim.disconnects", 100)
+    ck.require("sim.disconnects_on_the_wire", 30)
+    return ck.finish()
+
+
+def c10(tier, seed):
+    ck = Check("C10", tier, seed, "exploration")
+    _sim_part(ck, "C10", tier, seed,
+              "random configurations (client id incl. empty, user name / password, Will with every Will property, CONNECT properties, keep-alive, "
+              "optional authenticator with 0-2 challenge rounds) x broker lists of 1-4 entries (ports, paths, spaces, duplicates, a two-address "
+              "host, unresolvable hosts) x outcome sequences per attempt (refused, unreachable, hung TCP, silent, CONNACK >= 0x80, close); "
+              "monitor: first packet of every connection is the configured CONNECT (independent decoder), nothing but AUTH before a successful "
+              "CONNACK is delivered, silent attempts abandoned exactly 5.000 s after async_connect, resolutions follow the cyclic list order, "
+              "retries without delay except a 0.5-16.5 s pause when the list wraps. " + SHAPE)
+    ck.require("sim.connections_with_traffic", 100)
+    ck.require("sim.handshake_timeouts", 20)
+    ck.require("sim.wrap_pauses", 20)
+    ck.require("sim.immediate_retries", 20)
+    return ck.finish()
+
+
+def c12(tier, seed):
+    ck = Check("C12", tier, seed, "exploration")
+    _sim_part(ck, "C12", tier, seed,
+              "keep-alive 0/1/2/5/10/60/300/65535 with optional Server Keep Alive override (0/1/2/3/7/30), QoS 0 traffic both ways, a broker that "
+              "talks for ever / falls silent / falls silent and resumes, optional connection fault, write latency; monitor: next PINGREQ offered no "
+              "later than max(interval start + K, end of the write pending then), interval start = CONNACK processed or previous PINGREQ written; a "
+              "read that gets no byte is abandoned exactly 1.5*K after it was started (never earlier, never later); K = 0: no PINGREQ, no read "
+              "timeout during an hour of silence. " + SHAPE)
+    ck.require("sim.ping_intervals_checked", 100)
+    ck.require("sim.read_timeouts", 50)
+    ck.require("sim.keepalive0_connections", 5)
+    return ck.finish()
+
+
+def c15(tier, seed):
+    ck = Check("C15", tier, seed, "exploration")
+    _sim_part(ck, "C15", tier, seed,
+              "all 2^6 on/off combinations of Maximum Packet Size, Maximum QoS, Retain Available, Topic Alias Maximum, Wildcard Subscription "
+              "Available, Shared+Identified Subscription Available x boundary requests (QoS = max and max+1, alias = max and max+1, packet size = "
+              "limit and limit+1 computed with the reference encoder, wildcard / shared / identified subscriptions), issued while the client holds "
+              "the CONNACK; broker-side monitor checks every received packet against what that CONNACK announced; application-side: a request "
+              "exceeding exactly one capability completes at the same virtual instant, not inside the call, with the documented code, nothing on "
+              "the wire; 4000 (thorough 70000) refused requests followed by 65535 accepted ones must not hit pid_overrun. " + SHAPE)
+    ck.require("sim.capability_combinations", 64)
+    ck.require("sim.requests_expected_to_be_refused", 100)
+    ck.require("sim.idleak_accepted_requests", 65535)
+    return ck.finish()
+
+
 def c13(tier, seed):
     ck = Check("C13", tier, seed, "exploration")
     _sim_part(ck, "C13", tier, seed,
@@ -309,7 +398,7 @@ def c14(tier, seed):
     return ck.finish()
 
 
-CHECKS = {"C01": c01, "C02": c02, "C03": c03, "C04": c04, "C05": c05, "C06": c06, "C07": c07, "C13": c13, "C14": c14, "C17": c17, "C18": c18, "C19": c19, "C20": c20, "C16": c16, "C08": c08, "C11": c11}
+CHECKS = {"C01": c01, "C02": c02, "C03": c03, "C04": c04, "C05": c05, "C06": c06, "C07": c07, "C09": c09, "C10": c10, "C12": c12, "C13": c13, "C14": c14, "C15": c15, "C17": c17, "C18": c18, "C19": c19, "C20": c20, "C16": c16, "C08": c08, "C11": c11}
 
 
 def run(prop, tier, seed):
